@@ -20,8 +20,8 @@ ID = "C40"
 LEVEL = "model_checking"
 META = dict(
     technique="preemption-bounded exhaustive exploration of thread interleavings at instrumented yield points (cooperative scheduler over two real threads) with a linearizability oracle",
-    text="From five prepared engine states (just started, inside a Wait, in a Block with a pending Watch, with a running UOD "
-         "command, paused) the ticking thread runs a window of ticks while a second thread issues one request out of {append "
+    text="From seven prepared engine states (just started, inside a Wait, in a Block with a pending Watch, with a running UOD "
+         "command, paused, about to hand a UOD command to the command manager in the first / second window tick) the ticking thread runs a window of ticks while a second thread issues one request out of {append "
          "edit, inject, Pause/Unpause, Stop, cancel, force}.  Every interleaving at the yield points (phases of Engine.tick, "
          "entry/commit points of the request functions, Engine._lock acquire/release) with at most 1 (quick) / 2 (thorough) "
          "preemptions is executed; the final observation (marks, method state, command life cycles, run state, run log, request "
@@ -43,6 +43,9 @@ SCENARIOS = {
     "block-with-watch": dict(method="Block: B\n    Watch: X > 1\n        Mark: w\n    Wait: 1s\n    End block\nMark: z", warm=6, pre=()),
     "running-long": dict(method="Long: 6\nMark: b", warm=4, pre=()),
     "paused": dict(method="Mark: a\nWait: 1s\nMark: b", warm=5, pre=("Pause", 1)),
+    # the interpreter hands a UOD command to the command manager inside the window (first / second window tick)
+    "command-next": dict(method="Long: 3\nMark: b", warm=3, pre=()),
+    "command-after-next": dict(method="Long: 3\nMark: b", warm=2, pre=()),
 }
 REQUESTS = ["edit", "inject", "pause", "stop", "cancel", "force"]
 
